@@ -1,5 +1,5 @@
 (* C43 — model of gix-filter's built-in content filters.
-   Sources (as they ARE in /repo, including the `fix:` commit for the trailing 0x1a):
+   Sources (as they ARE in /repo, including the two `fix:` commits 42d375ce2 and 72dd87729):
      gix-filter/src/eol/utils.rs            Stats::from_bytes, is_binary, will_convert_lf_to_crlf,
                                             AttributesDigest::{to_eol,is_auto_text}, Configuration::to_eol
      gix-filter/src/eol/convert_to_git.rs   convert_to_git (decision tree, index check, round-trip check, stripping)
